@@ -118,6 +118,9 @@ MUTANTS = [
     ('C12', 'abort-skips-creating-when-savepoints-exist', CN,
      "            self._abort(self._savepoint_storage.creating)\n            self._abort_savepoint()\n        else:\n            self._abort()\n\n        self._invalidate_creating()",
      "            self._abort(self._savepoint_storage.creating)\n            self._abort_savepoint()\n        else:\n            self._abort()\n            self._invalidate_creating()"),
+    ('C17', 'recover-takes-a-stopped-iteration-for-the-end', RC,
+     "            if records._pos != records._tend:",
+     "            if False:"),
     ('C13', 'undo-compares-blob-records-only', FS,
      "                    if data_to_be_undone != current_data or \\\n                            self.is_blob_record(current_data):",
      "                    if data_to_be_undone != current_data:"),
